@@ -85,7 +85,7 @@ Definition corr_enc (c : ecase) : bool :=
     else (blen bs =? blen ib) &&
          match decode (dual o) ib with
          | Ok (t, v, r) => ty_eqb t (c_ty c) && val_eqb v (canon o (c_val c)) && (blen r =? 0)
-         | Err _ => false
+         | Err _ => match c_dec c with None => true | Some _ => false end   (* corr_dec compares further *)
          end
   | Err ETooLong, None => true
   | _, _ => false
@@ -118,4 +118,4 @@ Definition spec_roundtrip (c : ecase) : bool :=
 
 (* ---- non-vacuity: the hypotheses of C11_roundtrip_partial hold on the case ---------------------- *)
 Definition premise_ok (c : ecase) : bool :=
-  is_ok (encode (c_opts c) (c_ty c) (c_val c)) && supported (c_opts c) (c_ty c) (c_val c).
+  wf_opts_b (c_opts c) && is_ok (encode (c_opts c) (c_ty c) (c_val c)) && supported (c_opts c) (c_ty c) (c_val c).
